@@ -19,6 +19,7 @@ pub mod c14;
 pub mod c15;
 pub mod c17;
 pub mod deblk;
+pub mod ladder;
 pub mod yuv;
 pub mod pcheck;
 
@@ -78,7 +79,13 @@ pub fn replay(j: &J) -> i32 {
     let mut rep = Report::new();
     match prop.as_str() {
         "C01" => c01::replay(&ctx, j, &mut rep),
-        "C02" => c02::case(&ctx, shard, index, &mut rep),
+        "C02" => {
+            if j.get("kind").and_then(|k| k.as_str()) == Some("ladder") {
+                c02::ladder_case(&ctx, j.get("k").and_then(|k| k.as_i64()).unwrap_or(0) as usize, &mut rep)
+            } else {
+                c02::case(&ctx, shard, index, &mut rep)
+            }
+        }
         "C03" => c03::case(&ctx, shard, index, &mut rep),
         "C12" => c12::replay_shard(&ctx, shard, &mut rep),
         "C06" => c06::replay_shard(&ctx, shard, &mut rep),
